@@ -206,7 +206,7 @@ fn erase_tokens(ts: proc_macro2::TokenStream, er: &mut Eraser, in_fmt_macro: boo
         let inner = erase_tokens(g.stream(), er, is_fmt);
         // formatting artefacts of prettyplease (line wrapping): trailing commas before a closing
         // delimiter, and `=> { expr }` instead of `=> expr,`
-        let inner = inner.trim_end().trim_end_matches(',').to_string();
+        let inner = inner.trim_end().trim_end_matches(',').trim_end().to_string();
         let after_fat_arrow = out.trim_end().ends_with("=>");
         let has_top_semi = g.stream().into_iter().any(|t| matches!(&t, TokenTree::Punct(p) if p.as_char() == ';'));
         if after_fat_arrow && g.delimiter() == proc_macro2::Delimiter::Brace && !has_top_semi {
